@@ -168,8 +168,23 @@ func App(sort Sort, f string, args ...Term) Term {
 	return Term{sb.String(), sort}
 }
 
-func Add(a, b Term) Term { return App(a.Sort, "+", a, b) }
-func Sub(a, b Term) Term { return App(a.Sort, "-", a, b) }
+func Add(a, b Term) Term {
+	// x+0 / 0+x / x-0 are written x: arithmetic inside a term keeps E-matching from using it as a trigger
+	// (`string(b[0:j])` under a quantifier must meet the code's `string(b[0:i])` syntactically)
+	if a.Sort == SInt && b.S == "0" {
+		return a
+	}
+	if a.Sort == SInt && a.S == "0" && b.Sort == SInt {
+		return b
+	}
+	return App(a.Sort, "+", a, b)
+}
+func Sub(a, b Term) Term {
+	if a.Sort == SInt && b.S == "0" {
+		return a
+	}
+	return App(a.Sort, "-", a, b)
+}
 func Le(a, b Term) Term  { return App(SBool, "<=", a, b) }
 func Lt(a, b Term) Term  { return App(SBool, "<", a, b) }
 func Ge(a, b Term) Term  { return App(SBool, ">=", a, b) }
